@@ -364,7 +364,9 @@ def execute(plan, pristine, deep=False):
                                and (o, r) not in have]
                         want = before + len(new)
                         got = app.count_joins(sql, table)
-                        if got != want:
+                        # one-sided: "not joined twice".  A missing join is judged by
+                        # what it does to the rows (run ops), not by the SQL's shape.
+                        if got > want:
                             viol("join-count", op, style=style, text=text, table=table,
                                  expected=want, got=got, base_joins=base.joins,
                                  needed=[list(n) for n in need], sql=sql)
